@@ -92,7 +92,7 @@ Definition serve_spec (line : bytes -> option parsed) (h : hostcfg) (c : cache) 
     match cache_hit h c s (q_method r) (key_uri st) with
     | Some sb =>
         (* served from the cache: neither Prepare nor Present; every Package and Post all the same *)
-        out = ((Ok (client_view (q_method r) (apply_range s sb)), tr1 ++ pk ++ po), c)
+        out = ((Ok (respond (q_method r) s 1 sb), tr1 ++ pk ++ po), c)
     | None =>
         exists status body pref tr2 body' tr3,
           match s with
@@ -101,7 +101,7 @@ Definition serve_spec (line : bytes -> option parsed) (h : hostcfg) (c : cache) 
           | SanRange => (status, body, pref) = (416, [], 1) /\ tr2 = []
           end /\
           present_spec line b (fst st) body body' tr3 /\
-          out = ((Ok (client_view (q_method r) (apply_range s (status, body'))), tr1 ++ tr2 ++ tr3 ++ pk ++ po),
+          out = ((Ok (respond (q_method r) s pref (status, body')), tr1 ++ tr2 ++ tr3 ++ pk ++ po),
                  cache_store h c (q_method r) (key_uri st) pref status body')
     end.
 
